@@ -118,6 +118,7 @@ GRV_CMD(facelife) {
             else if (op == "make_seg") {
                 const std::string &t = awami ? texts_awami[arg & 7] : texts_padauk[arg & 7];
                 const size_t nch = gr_count_unicode_characters(gr_utf8, t.data(), t.data() + t.size(), 0);
+                GRV_WATCHDOG;
                 gr_segment *s = gr_make_seg(fonts.empty() ? 0 : fonts.back(), face, 0, fvals.empty() ? 0 : fvals.back(), gr_utf8, t.data(), nch, awami ? 1 : 0);
                 segs.push_back(s); ok = s != 0;
                 key = "t" + std::to_string(arg & 7) + ":p" + std::to_string(fonts.empty() ? 0 : int(fontppm.back() * 10));
@@ -129,6 +130,7 @@ GRV_CMD(facelife) {
             else if (op == "shape") {
                 const std::string &t = awami ? texts_awami[arg & 7] : texts_padauk[arg & 7];
                 const size_t nch = gr_count_unicode_characters(gr_utf8, t.data(), t.data() + t.size(), 0);
+                GRV_WATCHDOG;
                 gr_segment *s = gr_make_seg(fonts.empty() ? 0 : fonts.back(), face, 0, 0, gr_utf8, t.data(), nch, awami ? 1 : 0);
                 key = "t" + std::to_string(arg & 7) + ":p" + std::to_string(fonts.empty() ? 0 : int(fontppm.back() * 10));
                 SegP p = project(s, face, fonts.empty() ? 0 : fonts.back(), kind != "badglyph");
